@@ -37,6 +37,6 @@ SeqsUpTo(S, n) == IF n = 0 THEN {<<>>}
                   ELSE LET R == SeqsUpTo(S, n - 1)
                        IN R \cup {Append(r, x) : r \in {t \in R : Len(t) = n - 1}, x \in S}
 Fill(n, v) == [i \in 1..n |-> v]
-Min(a, b) == IF a < b THEN a ELSE b
-Max(a, b) == IF a > b THEN a ELSE b
+MinOf(a, b) == IF a < b THEN a ELSE b
+MaxOf(a, b) == IF a > b THEN a ELSE b
 =============================================================================
